@@ -625,12 +625,12 @@ def string_helpers(ctx):
                 if o.kind != 'ret':
                     verdict(ctx, R, False, '%s/panic' % path.rsplit('::', 1)[1], fn, {'leaf_constraints': pc_text(o)}, cfg)
                     continue
-                v = o.value
-                if v == FALSE:
-                    continue    # a false answer never lets a bad string pass
-                ok = isinstance(v, tuple) and v[0] == 'quant' and v[1] == 'all' and v[2] == seq_ and v[4] == le(T.typed(('elem', seq_, v[3]), 'u32'), I(MAX))
+            # (a false answer never lets a bad string pass.)  Wherever it answers true - as the returned condition, or as a
+            # fact of the path on which another condition is returned - every element is at most MAX_CHAR
+            for st_ in true_leaves(ip, an.outs):
+                ok = any(f[0] == 'quant' and f[1] == 'all' and f[2] == seq_ and le(T.typed(('elem', seq_, f[3]), 'u32'), I(MAX)) in T.conjuncts(f[4]) for f in st_.pc)
                 nq += 1
-                verdict(ctx, R, ok, '%s/true-only-if-every-element-is-at-most-MAX_CHAR' % path.rsplit('::', 1)[1], fn, {'returned': T.show(v)[:160]}, cfg)
+                verdict(ctx, R, ok, '%s/true-only-if-every-element-is-at-most-MAX_CHAR' % path.rsplit('::', 1)[1], fn, {'facts': [T.show(f)[:160] for f in st_.pc][-4:]}, cfg)
             verdict(ctx, R, nq >= 1, '%s/quantifier-leaf-present' % path.rsplit('::', 1)[1], fn, None, cfg)
     SS = '<smt_strings::SmtString as std::convert::'
     for path, callee in ((SS + 'From<std::string::String>>::from', SS + 'From<&str>>::from'), (SS + 'From<&[u32; N]>>::from', SS + 'From<&[u32]>>::from')):
